@@ -45,7 +45,7 @@ KINDS = ["stream", "trace", "connlimit", "ratelimit", "cbreaker", "roundrobin", 
 STATEFUL = {"connlimit", "ratelimit", "cbreaker", "roundrobin", "rebalancer"}
 STATUSES = ["none", "none", "200", "201", "202", "203", "206", "400", "401", "403", "404", "409", "418", "429", "500", "502", "503", "504"]
 EXTRA_HDRS = ["Grpc-Status=0", "Grpc-Status=5", "Grpc-Status=13", "Grpc-Message=oops",
-              "X-A=1", "X-A=2", "X-Verif-Long=" + "v" * 90, "Set-Cookie=hc=1", "Set-Cookie=sk0=mine", "Cache-Control=no-store", "Location=/x",
+              "X-A=1", "X-A=2", "X-Verif-Long=" + "v" * 90, "Set-Cookie=hc=1", "Set-Cookie=sk000000000=mine", "Cache-Control=no-store", "Location=/x",
               "Retry-After=7", "X-Retry-In=9s", "Etag=abc", "X-Forwarded-For=10.0.0.1", "Vary=Accept"]
 CHUNKS = [0, 1, 5, 12, 100, 1000, 2048, 4096, 5000]
 SKIP_HDR = {"Date", "Content-Length", "Transfer-Encoding", "Connection"}
@@ -354,7 +354,7 @@ def monitor(ops, outs):
             else:
                 bad.append("transparent: handler body %s, client got %s" % (want_body, kv["body"]))
         want_h = [(k, v) for k, v in sc["hdrs"] if k not in SKIP_HDR] + [("X-Req-Len", str(blen)), ("X-Req-Cred", "Bearer-c20/Basic-c20p/c20")]
-        cookies = ["sk%d=http://b0;_Path=/" % i for i, lay in enumerate(stack) if lay["sticky"] and lay["kind"] in ("roundrobin", "rebalancer")]
+        cookies = ["sk%s=http://b0;_Path=/" % ("0" * (9 - min(i, 9))) for i, lay in enumerate(stack) if lay["sticky"] and lay["kind"] in ("roundrobin", "rebalancer")]
         keys = sorted(set(k for k, _ in want_h) | set(k for k, _ in hdrs))
         for k in keys:
             w = [v for kk, v in want_h if kk == k]
@@ -478,6 +478,8 @@ def layer_token(rng, kind, force_q=False):
         t += "/v"
     if kind == "buffer" and rng.random() < 0.3:
         t += "/t"
+    if kind == "trace" and rng.random() < 0.3:
+        t += "/wf"  # the trace sink fails on every write: a fault in the tracer's environment, not a reason to touch the response
     if kind in ("roundrobin", "rebalancer") and rng.random() < 0.45:
         t += "/s"
     if kind == "cbreaker":
